@@ -2,10 +2,10 @@ use chrono::Duration;
 use nom::branch::alt;
 use nom::bytes::complete::tag;
 use nom::character::complete::{char, digit1};
-use nom::combinator::{map, map_res, opt, recognize};
+use nom::combinator::{map, opt};
 use nom::error::{Error, ErrorKind};
 use nom::multi::many1;
-use nom::sequence::pair;
+use nom::sequence::{pair, preceded};
 use nom::IResult;
 
 // Constants representing time units in nanoseconds
@@ -20,7 +20,7 @@ const MICROSECOND: u128 = 1_000;
 /// Sign           -> '-'
 /// Number         -> Digit+ ('.' Digit+)?
 /// Digit          -> '0' | '1' | '2' | '3' | '4' | '5' | '6' | '7' | '8' | '9'
-/// Unit           -> 'h' | 'm' | 's' | 'ms' | 'us' | 'ns'
+/// Unit           -> 'h' | 'm' | 's' | 'ms' | 'us' | 'µs' | 'ns'
 /// String         -> DurationString
 ///
 /// # Examples
@@ -68,21 +68,24 @@ impl Unit {
 }
 
 fn parse_number_unit(i: &str) -> IResult<&str, Duration> {
-    let (rest, num) = parse_number(i)?;
+    let (rest, (int, frac)) = parse_number(i)?;
     let (rest, unit) = parse_unit(rest)?;
-    let duration =
-        to_duration(num, unit).ok_or(nom::Err::Failure(Error::new(i, ErrorKind::TooLarge)))?;
+    let duration = to_duration(int, frac, unit)
+        .ok_or(nom::Err::Failure(Error::new(i, ErrorKind::TooLarge)))?;
     Ok((rest, duration))
 }
 
 /// Number -> Digit+ ('.' Digit+)?
 ///
+/// Returns the integer digits and the (possibly empty) fraction digits.
 /// Deliberately not `nom::number::complete::double`, which also accepts signs,
 /// exponents, `inf` and `nan`.
-fn parse_number(i: &str) -> IResult<&str, f64> {
-    map_res(
-        recognize(pair(digit1, opt(pair(char('.'), digit1)))),
-        str::parse::<f64>,
+fn parse_number(i: &str) -> IResult<&str, (&str, &str)> {
+    pair(
+        digit1,
+        map(opt(preceded(char('.'), digit1)), |frac: Option<&str>| {
+            frac.unwrap_or("")
+        }),
     )(i)
 }
 
@@ -95,6 +98,9 @@ fn parse_unit(i: &str) -> IResult<&str, Unit> {
     alt((
         map(tag("ms"), |_| Unit::Millisecond),
         map(tag("us"), |_| Unit::Microsecond),
+        // U+00B5 micro sign (what `format_duration` prints) and U+03BC Greek mu
+        map(tag("\u{b5}s"), |_| Unit::Microsecond),
+        map(tag("\u{3bc}s"), |_| Unit::Microsecond),
         map(tag("ns"), |_| Unit::Nanosecond),
         map(char('h'), |_| Unit::Hour),
         map(char('m'), |_| Unit::Minute),
@@ -102,13 +108,20 @@ fn parse_unit(i: &str) -> IResult<&str, Unit> {
     ))(i)
 }
 
-fn to_duration(num: f64, unit: Unit) -> Option<Duration> {
-    let nanos = (num * unit.nanos() as f64).trunc();
-    // `i64::MAX as f64` rounds up to 2^63, the first value out of range.
-    if nanos.is_nan() || nanos >= i64::MAX as f64 || nanos < i64::MIN as f64 {
-        return None;
+/// Exact conversion of `<int>.<frac><unit>` to nanoseconds in integer arithmetic
+/// (a binary float cannot hold `8.2` or `1.005`); what is left below one
+/// nanosecond is dropped.
+fn to_duration(int: &str, frac: &str, unit: Unit) -> Option<Duration> {
+    let unit = i128::from(unit.nanos());
+    let mut nanos = int.parse::<i128>().ok()?.checked_mul(unit)?;
+    // Fraction digits past the 24th are worth less than 1e-11 ns in any unit.
+    let digits = frac.get(..frac.len().min(24))?;
+    if !digits.is_empty() {
+        let scale = 10i128.checked_pow(u32::try_from(digits.len()).ok()?)?;
+        let part = digits.parse::<i128>().ok()?.checked_mul(unit)?;
+        nanos = nanos.checked_add(part.checked_div(scale)?)?;
     }
-    Some(Duration::nanoseconds(nanos as i64))
+    i64::try_from(nanos).ok().map(Duration::nanoseconds)
 }
 
 /// Formats a [`Duration`] into a string. String returns a string representing the
